@@ -103,12 +103,13 @@ int main ()
     else if (op == "div") { if (k >= 4) j /= extra; else j /= j[k]; w /= copy; }
     else throw ProtocolError ("op");
     O.put (j); O.put (w); };
-  OP("al.jonesr") { std::string op = A.next(); unsigned k = A.nat();     // real scalar taken by value
+  OP("al.jonesr") { std::string op = A.next(); unsigned k = A.nat();     // real scalar: a reference to a real or imaginary part stored inside the destination
     Jones<Rat> j = A.jones(); Jones<Rat> w = j;
     Rat extra = (k >= 8) ? A.rat() : Rat(0);
     Rat copy = (k >= 8) ? extra : ((k%2) ? j[k/2].imag() : j[k/2].real());
-    if (op == "mul") { if (k >= 8) j *= extra; else j *= ((k%2) ? j[k/2].imag() : j[k/2].real()); w *= copy; }
-    else if (op == "div") { if (k >= 8) j /= extra; else j /= ((k%2) ? j[k/2].imag() : j[k/2].real()); w /= copy; }
+    Rat& ref = (k >= 8) ? extra : DatumTraits<CRat>::element (DatumTraits< Jones<Rat> >::element (j, k/2), k%2);
+    if (op == "mul") { j *= ref; w *= copy; }
+    else if (op == "div") { j /= ref; w /= copy; }
     else throw ProtocolError ("op");
     O.put (j); O.put (w); };
 
@@ -159,14 +160,21 @@ int main ()
     if (op == "add") { if (al == "same") e += e; else e += other; w += other; }
     else throw ProtocolError ("op");
     O.put (e.x); O.put (e.y); O.put (w.x); O.put (w.y); };
-  OP("al.spinors") { std::string op = A.next(); unsigned k = A.nat();
+  OP("al.spinors") { std::string op = A.next(); unsigned k = A.nat();     // real scalar: a reference to a part stored inside the destination
     CRat x = A.cx(); CRat y = A.cx(); Spinor<Rat> e (x, y); Spinor<Rat> w = e;
     Rat extra = (k >= 4) ? A.rat() : Rat(0);
     Rat parts[4] = { x.real(), x.imag(), y.real(), y.imag() };
     Rat copy = (k >= 4) ? extra : parts[k];
-    if (op == "mul") { if (k == 0) e *= e.x.real(); else if (k == 1) e *= e.x.imag(); else if (k == 2) e *= e.y.real(); else if (k == 3) e *= e.y.imag(); else e *= extra; w *= copy; }
-    else if (op == "div") { if (k == 0) e /= e.x.real(); else if (k == 1) e /= e.x.imag(); else if (k == 2) e /= e.y.real(); else if (k == 3) e /= e.y.imag(); else e /= extra; w /= copy; }
+    Rat& ref = (k >= 4) ? extra : DatumTraits<CRat>::element ((k < 2) ? e.x : e.y, k%2);
+    if (op == "mul") { e *= ref; w *= copy; }
+    else if (op == "div") { e /= ref; w /= copy; }
     else throw ProtocolError ("op");
+    O.put (e.x); O.put (e.y); O.put (w.x); O.put (w.y); };
+  OP("al.spinorc") { unsigned k = A.nat();                               // complex scalar: one of the destination's own components
+    CRat x = A.cx(); CRat y = A.cx(); Spinor<Rat> e (x, y); Spinor<Rat> w = e;
+    CRat extra = (k >= 2) ? A.cx() : CRat(0); CRat copy = (k >= 2) ? extra : (k ? y : x);
+    CRat& ref = (k >= 2) ? extra : (k ? e.y : e.x);
+    e *= ref; w *= copy;
     O.put (e.x); O.put (e.y); O.put (w.x); O.put (w.y); };
 
   // fractional polarisation: dividing a Stokes vector by its own total intensity
